@@ -946,14 +946,24 @@ def run_size_callers(ctx, tmp, classes, rng, tau_rows):
                     if not retr or attempt == 2:
                         raise
             with h5py.File(out, 'r') as f:
-                o = f['Output']
-                blocks = [('program', o['Priors']['Spectra'], 'Output/Priors/Spectra')] if retr else [('program', o['Spectra'], 'Output/Spectra')]
+                def grp(*names):
+                    g = f
+                    for nm in names:
+                        if not isinstance(g, h5py.Group) or nm not in g:
+                            return None
+                        g = g[nm]
+                    return g
+                blocks = [('program', grp('Output', 'Priors', 'Spectra'), 'Output/Priors/Spectra')] if retr else [('program', grp('Output', 'Spectra'), 'Output/Spectra')]
                 if retr:
-                    sols = [k for k in o['Solutions'] if k.startswith('solution')]
+                    sols = [k for k in (grp('Output', 'Solutions') or {}) if k.startswith('solution')]
                     if not sols:
                         raise Machinery('the retrieval stored no solution')
-                    blocks += [('optimizer', o['Solutions'][k]['Spectra'], 'Output/Solutions/%s/Spectra' % k) for k in sols]
+                    blocks += [('optimizer', grp('Output', 'Solutions', k, 'Spectra'), 'Output/Solutions/%s/Spectra' % k) for k in sols]
                 for caller, blk, where in blocks:
+                    if blk is None:         # the spectrum dictionary of the run is not in the file at all
+                        events.append(dict(ev='tau', caller=caller, place='Spectra', binner=bname, size=sname, tau=['<group %s missing>' % where],
+                                           group='%s[%s]' % (where, binning)))
+                        continue
                     ev, n = tau_events_of_block(blk, caller, bname, sname, '%s[%s]' % (where, binning), True)
                     want = {(r['caller'], r['place'], r['binner'], r['size']): r['tau'] for r in tau_rows}
                     if n != 2 and want[(caller, 'Contribution', bname, sname)]:
@@ -1144,27 +1154,31 @@ def run(ctx):
         badl = judge_events(ctx, events, tau_rows)
         # canaries: one per event kind that carries a new clause
         good = [e for e in events if e['ev'] == 'dict' and 'cls' not in e and e['l'] not in badl and e['tree'].get('n') == 'group' and e['tree']['m']]
-        if not good:
+        canaries = []
+        if good:
+            c = json.loads(json.dumps(good[len(good) // 2]))
+            name = sorted(c['tree']['m'])[0]
+            c['tree']['m'][name + 'x'] = c['tree']['m'].pop(name)
+            canaries.append(c)
+        elif not badl:
             raise Machinery('no accepted event for the canary')
-        c = json.loads(json.dumps(good[len(good) // 2]))
-        name = sorted(c['tree']['m'])[0]
-        c['tree']['m'][name + 'x'] = c['tree']['m'].pop(name)
-        canaries = [c]
         gb = [e for e in bib_events if e['l'] not in badl and '<U+' in e['items']['bibtex']['v']]
-        if not gb:
-            raise Machinery('no accepted bibliography event with a non-ASCII character for the canary')
-        c = json.loads(json.dumps(gb[0]))
-        c['tree']['m']['bibtex']['v'] = re.sub(r'<U\+[0-9A-F]{4,6}>', '', c['tree']['m']['bibtex']['v'])      # the characters dropped
-        canaries.append(c)
+        if gb:
+            c = json.loads(json.dumps(gb[0]))
+            c['tree']['m']['bibtex']['v'] = re.sub(r'<U\+[0-9A-F]{4,6}>', '', c['tree']['m']['bibtex']['v'])      # the characters dropped
+            canaries.append(c)
+        elif not any(e['l'] in badl for e in bib_events):
+            raise Machinery('no bibliography event with a non-ASCII character for the canary')
         gt = [e for e in tau_events if e['l'] not in badl and e['size'] == 'lighter' and e['place'] == 'Component' and e['caller'] in ('program', 'optimizer')]
-        if not gt:
-            raise Machinery('no accepted program/optimizer tau event for the canary')
-        c = json.loads(json.dumps(gt[0]))
-        c['tau'] = ['binned_tau']
-        canaries.append(c)
+        if gt:
+            c = json.loads(json.dumps(gt[0]))
+            c['tau'] = ['binned_tau']
+            canaries.append(c)
+        elif not any(e['l'] in badl for e in tau_events):
+            raise Machinery('no program/optimizer tau event for the canary')
         for i, c in enumerate(canaries):
             c['l'] = i
-        ok2, bad2, _ = validate_trace('Trace_Output', 'Trace_Output.cfg', [{k: v for k, v in e.items() if k not in ('cls', 'group')} for e in canaries])
+        ok2, bad2, _ = validate_trace('Trace_Output', 'Trace_Output.cfg', [{k: v for k, v in e.items() if k not in ('cls', 'group')} for e in canaries]) if canaries else (False, [], None)
         if ok2 or {b['l'] for b in bad2} != set(range(len(canaries))):
             raise Machinery('canary accepted: trace validation is vacuous (%s)' % bad2)
         lap('trace+canary')
